@@ -333,3 +333,17 @@ pub fn unhex(s: &str) -> Vec<u8> {
         .map(|i| u8::from_str_radix(&s[2 * i..2 * i + 2], 16).unwrap_or(0))
         .collect()
 }
+
+/// 128-bit key of a canonical field vector (two independent 64-bit mixes).
+pub fn key128(fields: &[u64]) -> u128 {
+    let mut a: u64 = 0xcbf29ce484222325;
+    let mut b: u64 = 0x9E3779B97F4A7C15;
+    for &f in fields {
+        a = (a ^ f).wrapping_mul(0x100000001b3);
+        a ^= a >> 29;
+        b = b.wrapping_add(f).wrapping_mul(0xBF58476D1CE4E5B9);
+        b ^= b >> 31;
+        b = b.rotate_left(17);
+    }
+    ((a as u128) << 64) | b as u128
+}
